@@ -469,6 +469,12 @@ class Sym:
     def angle(self):
         return self.imag.arctan2(self.real)
 
+    def item(self, *a):
+        return self
+
+    def squeeze(self, *a, **k):
+        return self
+
     def __round__(self, n=None):
         if state.CUR is not None:
             state.CUR.stubs.add("round(x, n) -> x")
